@@ -97,6 +97,10 @@ def execute(case, cid):
     def wrap(xl):
         if log and case.get('use_logfunc'):
             return Numerics.make_extrap_log_func(model, extrap_x_l=xl)
+        if case.get('fm_default'):            # fail_mag (documented default 10) and, where possible, every other option left at its default
+            if xl is None and not log:
+                return Numerics.make_extrap_func(model)
+            return Numerics.make_extrap_func(model, extrap_x_l=xl, extrap_log=log)
         return Numerics.make_extrap_func(model, extrap_x_l=xl, extrap_log=log, fail_mag=case['fm'])
 
     def call(order):
@@ -132,7 +136,7 @@ def execute(case, cid):
     inp = {k: case[k] for k in ('log', 'kw', 'scalar', 'noex', 'xsrc', 'fm', 'pts', 'xs', 'kind', 'sh', 'mask', 'ids', 'coef',
                                  'perm', 'params', 'ns', 'extra', 'tag')}
     inp['use_logfunc'] = bool(case.get('use_logfunc'))
-    for key, dflt in (('pts_kind', 'list'), ('x_kind', 'list'), ('params_kind', 'list'), ('res_layout', 'c')):
+    for key, dflt in (('pts_kind', 'list'), ('x_kind', 'list'), ('params_kind', 'list'), ('res_layout', 'c'), ('fm_default', False)):
         inp[key] = case.get(key, dflt)
     rec = {'id': cid, 'op': 'no_extrap' if case['noex'] else 'extrap_log' if log else 'extrap_lin', 'site': 'Numerics.make_extrap_log_func' if (log and case.get('use_logfunc')) else 'Numerics.make_extrap_func',
            'in': inp}
@@ -218,12 +222,12 @@ def _fallback_coefs(rng, n, k, log, xmin, fm, kinds=None):
         kind = kinds[e % len(kinds)] if kinds else rng.choice(['far_low', 'far_high', 'near'])
         if log:
             # ln y = c0 + c1 x ; distance = |c1| xmin / ln 10 decades
-            dec = {'far_low': fm + rng.uniform(0.5, 2.0), 'far_high': -(fm + rng.uniform(0.5, 2.0)), 'near': rng.uniform(-0.8, 0.8) * fm}[kind]
+            dec = {'far_low': fm + rng.uniform(0.5, 2.0), 'far_high': -(fm + rng.uniform(0.5, 2.0)), 'near': rng.uniform(-0.8, 0.8) * fm, 'near_far': 0.7 * fm}[kind]
             c1 = Fraction(dec * math.log(10.0) / xmin).limit_denominator(1000)
             c = [Fraction(rng.randint(-3, 3)), c1]
         else:
             # y = c0 + c1 x ; y(xmin)/y(0) = 10^dec
-            dec = {'far_low': fm + rng.uniform(0.5, 2.0), 'far_high': -(fm + rng.uniform(0.5, 2.0)), 'near': rng.uniform(-0.8, 0.8) * fm}[kind]
+            dec = {'far_low': fm + rng.uniform(0.5, 2.0), 'far_high': -(fm + rng.uniform(0.5, 2.0)), 'near': rng.uniform(-0.8, 0.8) * fm, 'near_far': 0.7 * fm}[kind]
             dec = max(min(dec, 8.0), -8.0) if fm < 8 else dec
             c0 = Fraction(rng.randint(1, 9), 10 ** rng.randint(0, 3))
             c1 = Fraction(float(c0) * (10.0 ** dec - 1.0) / xmin).limit_denominator(10 ** 6)
@@ -370,9 +374,9 @@ def cases(ctx):
         for pos in range(k):
             for log in (False, True):
                 fm = [1, 2, 3, 10][(k + pos) % 4]
-                c = fixed(k, log, 'spectrum' if (k + pos) % 2 else 'array', [['1']] * 3, 'fallback-position', fm=fm, style='inv')
+                c = fixed(k, log, 'spectrum' if (k + pos) % 2 else 'array', [['1']] * 4, 'fallback-position', fm=fm, style='inv', fm_default=(fm == 10))
                 xmin = min(float(Fraction(v)) for v in c['xs'])
-                c['coef'] = _fallback_coefs(rng, 3, k, log, xmin, fm, kinds=['far_low', 'far_high', 'near'])
+                c['coef'] = _fallback_coefs(rng, 4, k, log, xmin, fm, kinds=['far_low', 'far_high', 'near', 'near_far'])
                 order = [j for j in range(k) if j != k - 1]
                 order.insert(pos, k - 1)                                  # largest pts = smallest x goes to position pos
                 out.append(reorder(c, order))
@@ -427,7 +431,8 @@ def nontrivial(r):
     if 'v' not in r['out'] or k < 2:
         return None
     order = 'inc' if i['pts'] == sorted(i['pts']) else 'dec' if i['pts'] == sorted(i['pts'], reverse=True) else 'mixed'
-    return (i['log'], k, i['kind'], i['xsrc'], i['kw'], order, i['tag'], i['fm'], tuple(i['sh']))
+    return (i['log'], k, i['kind'], i['xsrc'], i['kw'], order, i['tag'], i['fm'], tuple(i['sh']), i.get('pts_kind'), i.get('x_kind'), i.get('res_layout'),
+            i.get('use_logfunc'))
 
 
 def mutate(rec):
